@@ -402,7 +402,7 @@ func ruleEffect7(c *Ctx) {
 							continue
 						}
 						seen[desc] = true
-						if strings.Contains(how, "parser/oper.Sort") && strings.HasPrefix(why, "field ops of") && typeStr(args[i].Type()) == "[]parser/oper.Operator" {
+						if strings.Contains(how, "parser/oper.Sort") && strings.HasPrefix(why, "field ") && typeStr(args[i].Type()) == "[]parser/oper.Operator" {
 							c.R.OK(name, desc, in.Pos(), "frozen: the engine's own operator slice is sorted in place by oper.Sort when a lexer/parser is built; after the first compilation it is sorted, and a stable insertion/merge sort of a sorted slice only compares (SORTLESS-2 decides the comparator)")
 							continue
 						}
